@@ -229,7 +229,7 @@ let () =
         let ms = List.filter (fun m -> m <> link_heartbeat) ms in
         Printf.sprintf "dec=%s err=%s" (fmt_list fmt_msg ms) (derr_name e)) results in
       Printf.printf "%s\t%s\n" id (String.concat " | " (Printf.sprintf "wf=%d" (if wf then 1 else 0) :: parts))
-    | id :: "T" :: _ :: local :: remote :: payload :: db :: _ ->
+    | id :: "T" :: tcodec :: local :: remote :: payload :: db :: _ ->
       (* two real transports: per phase MsgApp over a fresh msgappv2 connection, MsgSnap over the pipeline
          (or, for the last one when a db payload is given, the snapshot path), the rest over the message stream *)
       let local = n_of_hex local and remote = n_of_hex remote in
@@ -239,6 +239,7 @@ let () =
       let nph = List.length phases in
       let snapdb = ref "-" in
       let parts = List.mapi (fun pi ms ->
+        if tcodec = "v2chaos" && pi = nph - 1 then "chaos=ok" else
         let apps = List.filter (fun m -> m.m_type = msg_app) ms in
         let snaps = List.filter (fun m -> m.m_type = msg_snap) ms in
         let others = List.filter (fun m -> m.m_type <> msg_app && m.m_type <> msg_snap) ms in
